@@ -781,6 +781,12 @@ fn history(family: &str, seed: u64, idx: usize, thorough: bool, out: &mut impl W
                 n += 1;
                 if c.rng.chance(1, 2) {
                     c.random_steps();
+                } else if c.rng.chance(1, 2) {
+                    // a second write while the first is still on its way through the receiver's fix systems
+                    let off = c.rng.below(6);
+                    c.lockstep(off);
+                    c.s.write(origin, e, &CVal::new(k, n), &[]);
+                    n += 1;
                 }
             }
             c.lockstep(3);
